@@ -1,5 +1,6 @@
 import S3V.Gen.Emit
 import S3V.Thm.Secrets
+import S3V.Spec.Secrets
 /-!
 # C16 — secret access keys never appear in any output (property theorems only)
 
@@ -18,7 +19,7 @@ What neither covers is named in the registry entry: what `tracing` and a derived
 observed by the capture harness (`h_secrets`), not proved.
 -/
 namespace S3V.C16
-open S3V S3V.Secrets S3V.Gen.Emit
+open S3V S3V.Secrets S3V.SecretsSpec S3V.Gen.Emit
 
 /-! ## rendering of `SecretKey` -/
 
@@ -54,6 +55,33 @@ theorem C16_holder_debug_ignores_secrets (v w : Val) (h : eraseVal v = eraseVal 
 theorem C16_credentials_debug_constant (ak s₁ s₂ : Bytes) :
     debugVal secretKeyDebug (credentialsVal ak s₁) = debugVal secretKeyDebug (credentialsVal ak s₂) :=
   C16_holder_debug_ignores_secrets _ _ rfl
+
+/-- **[model vs spec]** the renderings do not *disclose* the secret in the sense of the specification
+    (`SecretsSpec.Leaks`: the secret raw, `AWS4`-prefixed, hex or base64, as a contiguous block), for every
+    secret longer than the rendering itself (35 bytes; access keys' secrets have 40) and any encoders that do
+    not shrink their input.  (A short "secret" such as `KEY` trivially occurs in the placeholder text; the
+    property is about high-entropy keys.) -/
+theorem C16_renderings_do_not_disclose (hex b64 : Bytes → Bytes)
+    (hhex : ∀ b, b.length ≤ (hex b).length) (hb64 : ∀ b, b.length ≤ (b64 b).length)
+    (s : Bytes) (hs : 35 < s.length) :
+    ¬ Leaks hex b64 s (renderDebug secretKeyDebug s)
+    ∧ ∀ b, secretKeySerialize = some b → ¬ Leaks hex b64 s (renderSerializeJson b s) := by
+  have hform : ∀ f ∈ forms hex b64 s, 35 < f.length := by
+    intro f hf
+    simp only [forms, List.mem_cons, List.not_mem_nil, or_false] at hf
+    have h4 : (aws4 ++ s).length = 4 + s.length := by simp [aws4]; omega
+    have h1 := hhex s; have h2 := hb64 s; have h3 := hhex (aws4 ++ s); have h5 := hb64 (aws4 ++ s)
+    rcases hf with rfl | rfl | rfl | rfl | rfl | rfl <;> omega
+  have hd : (renderDebug secretKeyDebug s).length = 35 := by
+    rw [(C16_secret_render_constant s).1]; rfl
+  refine ⟨fun ⟨f, hf, hi⟩ => ?_, fun b hb ⟨f, hf, hi⟩ => ?_⟩
+  · exact not_infix_of_length_lt (by rw [hd]; exact hform f hf) hi
+  · have hj : (renderSerializeJson b s).length = 24 := by
+      have h := (C16_secret_render_constant s).2
+      rw [hb] at h
+      simp only [Option.map_some, Option.some.injEq] at h
+      rw [h]; rfl
+    exact not_infix_of_length_lt (by rw [hj]; have := hform f hf; omega) hi
 
 /-! ## the site tables -/
 
